@@ -247,10 +247,15 @@ def enum_compare_edges(prog, body, ch, adt_suffix, field, variants_of_interest):
             sites.append((bb, val))
         elif e[0] == "discr" and is_field(e[1]) and adt is not None:
             by_discr = {v["discr"]: v["name"] for v in adt["variants"]}
+            # an edge is "the field is one of variants_of_interest" only if every value that takes it is one of them
+            # (`matches!(x, Ghost | Header)` sends both variants to the same block)
+            by_target = {}
             for v, tgt in t["targets"]:
-                if by_discr.get(v) in variants_of_interest:
+                by_target.setdefault(tgt, []).append(by_discr.get(v))
+            for tgt, names in by_target.items():
+                if tgt != t["otherwise"] and all(n in variants_of_interest for n in names):
                     edges.add((bb, tgt))
-                    sites.append((bb, by_discr.get(v)))
+                    sites.append((bb, "|".join(str(n) for n in names)))
     return edges, sites
 
 
